@@ -9,7 +9,7 @@
                         HTTPServerRequest.__init__ (Host rules, uri.partition("?"))
      escape.py          url_unescape(encoding=None, plus=False) = urllib.parse.unquote_to_bytes
                         (Lib/C21_Pct.v) of the path bytes (UTF-8 fallback: Lib/C21_Utf8.v)
-     http1connection.py HTTP1Connection._can_keep_alive, write_headers (server side),
+     http1connection.py HTTP1Connection._can_keep_alive, write_headers (server side, after fix 92da2a1),
                         _format_chunk, parse_int, the Content-Length check of finish
 
    Text (str) is a list of code points, bytes a list of byte values; both [list N].
@@ -352,6 +352,11 @@ Definition no_body_code (code : N) : bool :=
 
 Definition has_crlf (s : text) : bool := existsb (fun c => (c =? 13) || (c =? 10)) s.
 
+(* fix 92da2a1: a non-empty reason must fullmatch _ABNF.reason_phrase = (?:[\t ]|VCHAR|obs-text)+ and
+   every value _FIELD_VALUE_CHARS_RE = [\t\x20-\x7e\x80-\xff]* *)
+Definition value_char (c : N) : bool := (c =? 9) || in_range 32 126 c || in_range 128 255 c.
+Definition reason_ok (reason : text) : bool := forallb value_char reason.   (* "" passes: the check is skipped *)
+
 Definition write_headers (v11 : bool) (method : text) (req_h : hmap)
            (code : N) (reason : text) (h : hmap) (chunk : text) : wire_res :=
   let is_head := text_eqb method (t "HEAD") in
@@ -376,7 +381,9 @@ Definition write_headers (v11 : bool) (method : text) (req_h : hmap)
     | _, None => WRaise                                           (* UnicodeEncodeError *)
     | Some ex, Some start =>
         let all := hm_get_all h2 in
-        if negb (forallb (fun nv => is_token (fst nv)) all) then WRaise
+        if negb (reason_ok reason) then WRaise                        (* ValueError: Illegal reason phrase *)
+        else if negb (forallb (fun nv => forallb value_char (snd nv)) all) then WRaise
+        else if negb (forallb (fun nv => is_token (fst nv)) all) then WRaise
         else
           let lines := start :: map (fun nv => fst nv ++ t ": " ++ snd nv) all in
           if negb (forallb (fun l => forallb (fun c => c <? 256) l) (tl lines)) then WRaise   (* latin1 *)
